@@ -18,7 +18,13 @@ ASSUMPTIONS = ['the end-to-end clause (patch reproduces B) is evaluated on the i
 
 FAULTS = ['none', 'ser', 'open', 'write', 'close']
 SHIFTED = [(['a', 'b', 'c', 'd', 'e'], ['b', 'c', 'X', 'e']), ([1, 2, 3, 4, 5, 6], [0, 1, 2, 9, 4, 5, 6, 7]), ({'k': ['p', 'q', 'r', 's']}, {'k': ['q', 'Z', 's', 't']}),
-           ([10, 20, 30, 40], [20, 30, 41])]
+           ([10, 20, 30, 40], [20, 30, 41]),
+           # several lists of one document rebuilt from recorded opcodes (items inserted at the front and at the end), side by side and nested
+           ({'tags': ['a', 'b', 'c', 'd'], 'ids': [1, 2, 3, 4, 5]}, {'tags': ['start', 'a', 'b', 'c', 'd', 'end'], 'ids': [0, 1, 2, 3, 4, 5, 6]}),
+           ({'x': {'l': [1, 2, 3, 4]}, 'y': [{'m': ['p', 'q', 'r', 's']}], 'z': ['u', 'v', 'w', 'x']},
+            {'x': {'l': [0, 1, 2, 3, 4, 5]}, 'y': [{'m': ['o', 'p', 'q', 'r', 's', 't']}], 'z': ['t', 'u', 'v', 'w', 'x', 'y']}),
+           # text that is legal JSON but not encodable as it stands (an unpaired surrogate), in a changed leaf, an untouched leaf and a key
+           ({'t': 'cut \ud83d', 'n': 1}, {'t': 'cut \ud83d', 'n': 2}), ({'t': 'a'}, {'t': 'b \udc00'}), ({'k\ud800': 1, 'n': [1]}, {'k\ud800': 1, 'n': [1, 2]})]
 
 
 class Boom(Exception):
